@@ -588,7 +588,10 @@ size_t ZSTD_seekable_decompress(ZSTD_seekable* zs, void* dst, size_t len, unsign
             /* read in more data if we're done with this buffer */
             if (zs->in.pos == zs->in.size) {
                 toRead = MIN(toRead, SEEKABLE_BUFF_SIZE);
-                CHECK_IO(zs->src.read(zs->src.opaque, zs->inBuff, toRead));
+                if (zs->src.read(zs->src.opaque, zs->inBuff, toRead) < 0) {
+                    zs->curFrame = (U32) -1;   /* the source position is unknown after a failed read : the next call seeks and resets */
+                    return ERROR(seekableIO);
+                }
                 zs->in.size = toRead;
                 zs->in.pos = 0;
             }
